@@ -4,6 +4,7 @@ package eng
 
 import (
 	"fmt"
+	"sync"
 	"go/constant"
 	"go/token"
 	"go/types"
@@ -86,8 +87,39 @@ func CallArgs(c *ssa.CallCommon) []ssa.Value {
 }
 
 // ConstInt returns the integer value of a constant SSA value (through conversions).
-func ConstInt(v ssa.Value) (int64, bool) {
+func ConstInt(v ssa.Value) (int64, bool) { return constInt(v, 0) }
+
+func constInt(v ssa.Value, d int) (int64, bool) {
 	v = StripConv(v)
+	if bo, isB := v.(*ssa.BinOp); isB && d < 6 {
+		// arithmetic over constants (an inlined helper called with a constant argument
+		// leaves `16 + 0*4` unfolded in the SSA form)
+		x, okx := constInt(bo.X, d+1)
+		y, oky := constInt(bo.Y, d+1)
+		if okx && oky {
+			switch bo.Op {
+			case token.ADD:
+				return x + y, true
+			case token.SUB:
+				return x - y, true
+			case token.MUL:
+				return x * y, true
+			case token.SHL:
+				if y >= 0 && y < 63 {
+					return x << uint(y), true
+				}
+			case token.SHR:
+				if y >= 0 && y < 63 {
+					return x >> uint(y), true
+				}
+			case token.AND:
+				return x & y, true
+			case token.OR:
+				return x | y, true
+			}
+		}
+		return 0, false
+	}
 	c, ok := v.(*ssa.Const)
 	if !ok || c.Value == nil {
 		return 0, false
@@ -116,10 +148,41 @@ func StripConv(v ssa.Value) ssa.Value {
 			v = x.X
 		case *ssa.ChangeInterface:
 			v = x.X
+		case *ssa.Phi:
+			// a phi whose only non-nil source is X (the other edges are the nil of error
+			// paths, as in `k, err := helper()` after inlining) denotes X wherever it is used
+			if u := nilPhiSource(x); u != nil {
+				v = u
+				continue
+			}
+			return v
 		default:
 			return v
 		}
 	}
+}
+
+func nilPhiSource(p *ssa.Phi) ssa.Value {
+	var src ssa.Value
+	nils := 0
+	for _, e := range p.Edges {
+		if c, ok := e.(*ssa.Const); ok && c.Value == nil {
+			switch c.Type().Underlying().(type) {
+			case *types.Pointer, *types.Interface, *types.Slice, *types.Map, *types.Signature, *types.Chan:
+				nils++
+				continue
+			}
+			return nil
+		}
+		if src != nil && src != e {
+			return nil
+		}
+		src = e
+	}
+	if src == nil || nils == 0 || src == ssa.Value(p) {
+		return nil
+	}
+	return src
 }
 
 // ResultValues returns the values result #idx of fn may carry at its returns, resolving
@@ -134,6 +197,13 @@ func ResultValues(fn *ssa.Function, idx int) []ssa.Value {
 			return
 		}
 		seen[v] = true
+		if phi, ok := StripConv(v).(*ssa.Phi); ok && phi != v {
+			// a converted phi (e.g. Key(buffer) of an inlined helper's result): look through
+			for _, e := range phi.Edges {
+				add(e, d+1)
+			}
+			return
+		}
 		switch x := v.(type) {
 		case *ssa.Phi:
 			for _, e := range x.Edges {
@@ -424,6 +494,111 @@ func sameValue(a, b ssa.Value, d int) bool {
 	return false
 }
 
+// KnownNonNil reports values that are never nil: results of errors.New / fmt.Errorf and of
+// in-scope constructors all of whose returns are non-nil, boxed concrete values, allocations,
+// closures, freshly made maps, slices and channels, and loads of package-level variables that
+// are only ever assigned non-nil values by their package initialiser (error sentinels).
+func KnownNonNil(v ssa.Value) bool { return knownNonNil(v, 0) }
+
+func knownNonNil(v ssa.Value, d int) bool {
+	if d > 3 {
+		return false
+	}
+	switch x := v.(type) {
+	case *ssa.MakeInterface, *ssa.Alloc, *ssa.MakeClosure, *ssa.MakeMap, *ssa.MakeChan, *ssa.MakeSlice, *ssa.FieldAddr, *ssa.IndexAddr, *ssa.Function, *ssa.Global:
+		return true
+	case *ssa.ChangeInterface:
+		return knownNonNil(x.X, d+1)
+	case *ssa.ChangeType:
+		return knownNonNil(x.X, d+1)
+	case *ssa.UnOp:
+		if g, ok := x.X.(*ssa.Global); ok && x.Op == token.MUL {
+			return sentinelNonNil(g, d)
+		}
+	case *ssa.Call:
+		switch FuncID(CalleeObj(&x.Call)) {
+		case "errors.New", "fmt.Errorf":
+			return true
+		}
+		if f := x.Call.StaticCallee(); f != nil && f.Blocks != nil && f.Signature.Results().Len() == 1 {
+			n, ok := 0, true
+			Instrs(f, func(in ssa.Instruction) {
+				if ret, isRet := in.(*ssa.Return); isRet && len(ret.Results) == 1 {
+					n++
+					if !knownNonNil(ret.Results[0], d+1) {
+						ok = false
+					}
+				}
+			})
+			return ok && n > 0
+		}
+	}
+	return false
+}
+
+var (
+	globalStoresOnce sync.Once
+	globalStores     map[*ssa.Global][]*ssa.Store
+	globalEscapes    map[*ssa.Global]bool // address used for anything but a load or a direct store
+	scopeFuncsForIdx []*ssa.Function
+)
+
+// IndexGlobals registers the functions (production functions and package initialisers) whose
+// stores to package-level variables are indexed for KnownNonNil.
+func IndexGlobals(fns []*ssa.Function) {
+	scopeFuncsForIdx = fns
+	globalStoresOnce = sync.Once{}
+}
+
+func sentinelNonNil(g *ssa.Global, d int) bool {
+	globalStoresOnce.Do(func() {
+		globalStores = map[*ssa.Global][]*ssa.Store{}
+		globalEscapes = map[*ssa.Global]bool{}
+		for _, f := range scopeFuncsForIdx {
+			Instrs(f, func(in ssa.Instruction) {
+				for _, op := range in.Operands(nil) {
+					gl, ok := (*op).(*ssa.Global)
+					if !ok {
+						continue
+					}
+					switch x := in.(type) {
+					case *ssa.Store:
+						if x.Addr == ssa.Value(gl) {
+							globalStores[gl] = append(globalStores[gl], x)
+							if x.Val == ssa.Value(gl) {
+								globalEscapes[gl] = true
+							}
+							continue
+						}
+					case *ssa.UnOp:
+						if x.Op == token.MUL {
+							continue
+						}
+					}
+					globalEscapes[gl] = true
+				}
+			})
+		}
+	})
+	if scopeFuncsForIdx == nil || globalEscapes[g] {
+		return false
+	}
+	sts := globalStores[g]
+	if len(sts) == 0 {
+		return false
+	}
+	for _, st := range sts {
+		f := st.Parent()
+		if f == nil || f.Pkg != g.Pkg || f.Synthetic == "" || f.Name() != "init" {
+			return false // assigned outside the package initialiser
+		}
+		if !knownNonNil(st.Val, d+1) {
+			return false
+		}
+	}
+	return true
+}
+
 // Instrs iterates over all instructions of fn (not descending into closures).
 func Instrs(fn *ssa.Function, f func(ssa.Instruction)) {
 	for _, b := range fn.Blocks {
@@ -487,4 +662,36 @@ func basicResults(t types.Type) bool {
 		_, ok := t.Underlying().(*types.Basic)
 		return ok
 	}
+}
+
+// FuncValue resolves a function value passed as a callback: a closure literal, a plain
+// function, or a bound method value (`s.method`), whose wrapper is looked through. off is the
+// number of leading parameters of the returned function that are not parameters of the
+// callback (1 for the receiver of a bound method).
+func FuncValue(v ssa.Value) (fn *ssa.Function, off int) {
+	switch x := StripConv(v).(type) {
+	case *ssa.Function:
+		return x, 0
+	case *ssa.MakeClosure:
+		f, _ := x.Fn.(*ssa.Function)
+		if f == nil {
+			return nil, 0
+		}
+		if f.Synthetic != "" && len(x.Bindings) == 1 {
+			// bound method wrapper: its body is a single call of the method
+			var target *ssa.Function
+			Instrs(f, func(in ssa.Instruction) {
+				if c, ok := in.(ssa.CallInstruction); ok {
+					if t := c.Common().StaticCallee(); t != nil {
+						target = t
+					}
+				}
+			})
+			if target != nil && target.Blocks != nil {
+				return target, 1
+			}
+		}
+		return f, 0
+	}
+	return nil, 0
 }
